@@ -275,6 +275,45 @@ Definition answer (idx : list series) (ext : lset) (ext_ok : bool) (ms : list ma
                 | cs => [(extend (fst s) ext, cs)]
                 end) (select idx ms).
 
+(* ---- the expanded-postings cache over a history of queries ----------------------- *)
+(* The index cache keeps, per block, the expanded postings of a matcher list
+   (storeExpandedPostingsToCache / fetchExpandedPostingsFromCache): the key is made of the
+   matchers only, NOT of the time range. [cold ms] is what a cold store computes for ms
+   (eager: [select]; lazy: [select_with] for the heuristic's marking - the entry is written at
+   the end of nextBatch from the series that passed the lazy matchers, whether or not they
+   have chunks in the queried range). *)
+Definition finish (ext : lset) (sel : list series) (mint maxt : Z) : list series :=
+  flat_map (fun s : series =>
+              match chunks_for (snd s) mint maxt with
+              | [] => []
+              | cs => [(extend (fst s) ext, cs)]
+              end) sel.
+
+Definition pcache := list (list matcher * list series).
+Definition key_eqb (a b : list matcher) : bool := list_eqb matcher_same a b.
+Fixpoint pc_lookup (c : pcache) (ms : list matcher) : option (list series) :=
+  match c with
+  | [] => None
+  | (k, v) :: r => if key_eqb ms k then Some v else pc_lookup r ms
+  end.
+
+Definition query := (list matcher * Z * Z)%type.
+
+Definition query_step (cold : list matcher -> list series) (ext : lset) (c : pcache) (q : query)
+  : list series * pcache :=
+  let '(ms, mint, maxt) := q in
+  match pc_lookup c ms with
+  | Some sel => (finish ext sel mint maxt, c)
+  | None => let sel := cold ms in (finish ext sel mint maxt, (ms, sel) :: c)
+  end.
+
+Fixpoint run_hist (cold : list matcher -> list series) (ext : lset) (c : pcache) (h : list query)
+  : list (list series) :=
+  match h with
+  | [] => []
+  | q :: r => let '(a, c') := query_step cold ext c q in a :: run_hist cold ext c' r
+  end.
+
 (* ---- gapBasedPartitioner.Partition --------------------------------------------- *)
 (* ranges (start, end) sorted by start; a part = (Start, End, ElemRng[0], ElemRng[1]) *)
 Definition part := (Z * Z * nat * nat)%type.
@@ -304,10 +343,13 @@ Fixpoint partition (fuel : nat) (maxGap : Z) (rs : list (Z * Z)) (j : nat) : opt
   end.
 
 (* ---- cases ------------------------------------------------------------------- *)
+(* one observed step of a history: queried range and the answer *)
+Definition step_obs := (Z * Z * list series)%type.
+
 Inductive case :=
-| CSel (idx : list series) (ext : lset) (ext_ok : bool) (ms : list matcher) (mint maxt : Z)
-       (impls : list (list series))      (* one answer per configuration / repetition, canonically sorted *)
-       (oracle : list series)            (* TSDB reader: same canonical order *)
+| CSel (idx : list series) (ext : lset) (ext_ok : bool) (ms : list matcher)
+       (impls : list (list step_obs))    (* per store configuration: the history of (range, answer), canonically sorted answers *)
+       (oracles : list step_obs)         (* per distinct range: the TSDB read of that range *)
 | CPart (maxGap : Z) (rs : list (Z * Z)) (impl : list part).
 
 Definition kv_eqb (a b : str * str) : bool := str_eqb (fst a) (fst b) && str_eqb (snd a) (snd b).
@@ -336,17 +378,41 @@ Fixpoint parts_cover_from (rs : list (Z * Z)) (ps : list part) (j : nat) : bool 
   end.
 Definition parts_cover (rs : list (Z * Z)) (ps : list part) : bool := parts_cover_from rs ps 0.
 
+Fixpoint all2 {A B} (f : A -> B -> bool) (l1 : list A) (l2 : list B) : bool :=
+  match l1, l2 with
+  | [], [] => true
+  | x :: r1, y :: r2 => f x y && all2 f r1 r2
+  | _, _ => false
+  end.
+
 Definition corr_ok (c : case) : bool :=
   match c with
-  | CSel idx ext ext_ok ms mint maxt impls _ =>
-      let model := answer idx ext ext_ok ms mint maxt in
-      forallb (fun impl => set_eqb model impl) impls
+  | CSel idx ext ext_ok ms impls _ =>
+      forallb (fun hist : list step_obs =>
+                 (* every store starts cold; a block whose external labels do not match is skipped *)
+                 let model :=
+                   if ext_ok then run_hist (select idx) ext [] (map (fun st : step_obs => (ms, fst (fst st), snd (fst st))) hist)
+                   else map (fun _ => []) hist in
+                 all2 (fun m (st : step_obs) => set_eqb m (snd st)) model hist) impls
   | CPart g rs impl =>
       option_eqb (list_eqb part_eqb) (partition (length rs) g rs 0%nat) (Some impl)
   end.
 
+Fixpoint oracle_for (oracles : list step_obs) (mint maxt : Z) : option (list series) :=
+  match oracles with
+  | [] => None
+  | (a, b, o) :: r => if (a =? mint) && (b =? maxt) then Some o else oracle_for r mint maxt
+  end.
+
+(* every answer of every history equals the direct TSDB read of ITS OWN range *)
 Definition pred_ok (c : case) : bool :=
   match c with
-  | CSel _ _ _ _ _ _ impls oracle => forallb (fun impl => list_eqb series_eqb impl oracle) impls
+  | CSel _ _ _ _ impls oracles =>
+      forallb (fun hist : list step_obs =>
+                 forallb (fun st : step_obs =>
+                            match oracle_for oracles (fst (fst st)) (snd (fst st)) with
+                            | Some o => list_eqb series_eqb (snd st) o
+                            | None => false
+                            end) hist) impls
   | CPart g rs impl => parts_cover rs impl
   end.
